@@ -251,24 +251,59 @@ pub struct RunOut {
     pub dump: String,
 }
 
+/// how long the executable gets for one run before it is killed (its exit status is then `None`, like a death by signal):
+/// a run that never ends must end the check with a report, not hang it
+pub const BIN_TIMEOUT_S: u64 = 60;
+pub static BIN_TIMEOUTS: std::sync::atomic::AtomicUsize = std::sync::atomic::AtomicUsize::new(0);
+
+fn wait_bounded(mut child: std::process::Child, input: Option<&[u8]>) -> (Option<i32>, Vec<u8>) {
+    use std::io::{Read, Write};
+    if let (Some(data), Some(mut si)) = (input, child.stdin.take()) {
+        let data = data.to_vec();
+        std::thread::spawn(move || { let _ = si.write_all(&data); });
+    }
+    let mut so = child.stdout.take();
+    let reader = std::thread::spawn(move || { let mut v = vec![]; if let Some(s) = so.as_mut() { let _ = s.read_to_end(&mut v); } v });
+    let t0 = std::time::Instant::now();
+    let status = loop {
+        match child.try_wait() {
+            Ok(Some(st)) => break st.code(),
+            Ok(None) => {
+                if t0.elapsed().as_secs() >= BIN_TIMEOUT_S {
+                    let _ = child.kill();
+                    let _ = child.wait();
+                    BIN_TIMEOUTS.fetch_add(1, std::sync::atomic::Ordering::Relaxed);
+                    break None;
+                }
+                std::thread::sleep(std::time::Duration::from_millis(2));
+            }
+            Err(_) => break None,
+        }
+    };
+    (status, reader.join().unwrap_or_default())
+}
+
 pub fn run_bin(dir: &Path, args: &[String]) -> RunOut {
     let dump = dir.join("dump.txt");
     let _ = std::fs::remove_file(&dump);
-    let out = Command::new(bin_path())
+    let child = Command::new(bin_path())
         .args(args)
         .current_dir(dir)
         .env("OXIPNG_VERIF_DUMP", &dump)
         .env("RUST_LOG", "off")
-        .output()
+        .stdin(std::process::Stdio::null())
+        .stdout(std::process::Stdio::piped())
+        .stderr(std::process::Stdio::null())
+        .spawn()
         .expect("cannot run the oxipng binary (was it built by ./check?)");
-    RunOut { status: out.status.code(), stdout: out.stdout, dump: std::fs::read_to_string(&dump).unwrap_or_default() }
+    let (status, stdout) = wait_bounded(child, None);
+    RunOut { status, stdout, dump: std::fs::read_to_string(&dump).unwrap_or_default() }
 }
 
 pub fn run_bin_stdin(dir: &Path, args: &[String], input: &[u8]) -> RunOut {
-    use std::io::Write;
     let dump = dir.join("dump.txt");
     let _ = std::fs::remove_file(&dump);
-    let mut child = Command::new(bin_path())
+    let child = Command::new(bin_path())
         .args(args)
         .current_dir(dir)
         .env("OXIPNG_VERIF_DUMP", &dump)
@@ -278,12 +313,8 @@ pub fn run_bin_stdin(dir: &Path, args: &[String], input: &[u8]) -> RunOut {
         .stderr(std::process::Stdio::null())
         .spawn()
         .expect("cannot run the oxipng binary");
-    {
-        let mut si = child.stdin.take().unwrap();
-        let _ = si.write_all(input);
-    }
-    let out = child.wait_with_output().expect("wait");
-    RunOut { status: out.status.code(), stdout: out.stdout, dump: std::fs::read_to_string(&dump).unwrap_or_default() }
+    let (status, stdout) = wait_bounded(child, Some(input));
+    RunOut { status, stdout, dump: std::fs::read_to_string(&dump).unwrap_or_default() }
 }
 
 pub fn corr(ctx: &mut Ctx) {
